@@ -371,13 +371,22 @@ func VfC13_longReader() {
 	}
 	vfSettleC()
 	// the reader looks at both queues (it already holds the results lock)
-	c.qs.pendMu.RLock()
-	inP := map[uint64]bool{}
-	for id := range c.qs.pendq.Ops {
-		inP[id] = true
+	pend, perr := c.Pending() // public API: takes only the pending lock, which nobody holds now
+	if perr != nil {
+		panic(perr)
 	}
-	pendElec, pendParams := c.qs.pendq.Election != nil, c.qs.pendq.SessionParams != nil
-	c.qs.pendMu.RUnlock()
+	inP := map[uint64]bool{}
+	pendElec, pendParams := false, false
+	for _, p := range pend {
+		switch v := p.(type) {
+		case *PendingOp:
+			inP[v.Op.GetId()] = true
+		case *ElectionReqDetails:
+			pendElec = true
+		case *SessionParamReqDetails:
+			pendParams = true
+		}
+	}
 	inR := map[uint64]bool{}
 	resElec, resParams := false, false
 	for _, r := range c.qs.resultq {
